@@ -271,7 +271,15 @@ def _layout_hook(ctx: Ctx, mod: Any, cls: Optional[ClassInfo]) -> Any:
             if last == "aggregate_bit_length_sets" and len(e.args) == 1 and isinstance(e.func, ast.Attribute):
                 owner = None
                 b = e.func.value
-                if isinstance(b, ast.Name) and b.id in ("self", "cls") and f.cls is not None:
+                try:
+                    bv = f.fold(b)
+                except Unfoldable:
+                    bv = None
+                if isinstance(bv, ClassInfo):
+                    owner = bv
+                elif type(bv).__name__ == "AObj":
+                    owner = bv._cls_
+                elif isinstance(b, ast.Name) and b.id in ("self", "cls") and f.cls is not None:
                     owner = f.cls
                 else:
                     k = repo.resolve_expr(f.mod, b, f.cls) if f.mod is not None and isinstance(b, (ast.Name, ast.Attribute)) else None
@@ -298,7 +306,7 @@ def aggregate_term(ctx: Ctx, fn: FuncInfo, field_types: List[Any]) -> TBls:
 
 def _field_type_grids() -> List[List[Sym]]:
     out = []
-    for als in ([], [1], [8], [1, 1], [1, 8], [8, 1], [8, 8], [1, 8, 1], [8, 1, 8]):
+    for als in ([], [1], [8], [1, 1], [1, 8], [8, 1], [8, 8], [1, 8, 1], [8, 1, 8], [1, 1, 8]):
         out.append([Sym(bit_length_set=TBls.var("T%d" % i, a), alignment_requirement=a, name="T%d" % i) for i, a in enumerate(als)])
     return out
 
